@@ -382,6 +382,12 @@ func run(c *core.Case) {
 			injMode[id] = m
 			injMu.Unlock()
 			p.Peer.Write([]byte(fmt.Sprintf("<iq type='get' id='%s' from='peer@example.org/p'><q xmlns='urn:verif:h'/></iq>", id)))
+			// stanzas that nobody answers (the handler writes nothing and the
+			// session adds nothing): the serve loop must not touch the output
+			for u, nu := 0, ir.Intn(4); u < nu; u++ {
+				p.Peer.Write([]byte(fmt.Sprintf("<message from='peer@example.org/p' id='u%d-%d'><body>ignored</body></message><presence from='peer@example.org/p'/>", k, u)))
+				c.Count("incoming_stanzas_nobody_answers", 2)
+			}
 			for i, n := 0, ir.Intn(200); i < n; i++ {
 				runtime.Gosched()
 			}
@@ -680,7 +686,7 @@ func trunc(s string) string {
 
 // Prop returns the C05 check.
 func Prop() *core.Prop {
-	req := []string{"histories", "histories_with_partial_failure", "partial:Send:reader-fails", "partial:SendElement:payload-reader-fails", "partial:Encode:xmlstream.Marshaler-fails", "partial:Encode:xmlstream.WriterTo-fails", "partial:TokenWriter:closed-mid-element", "component_streams", "invalid_argument_calls", "handler_replies_after_refused_writes", "handler_replies_abandoned_in_mid_element", "calls_overlapping_another_actor", "elements_spanning_several_writes", "auto_replies", "wire_stanzas"}
+	req := []string{"histories", "histories_with_partial_failure", "partial:Send:reader-fails", "partial:SendElement:payload-reader-fails", "partial:Encode:xmlstream.Marshaler-fails", "partial:Encode:xmlstream.WriterTo-fails", "partial:TokenWriter:closed-mid-element", "component_streams", "invalid_argument_calls", "incoming_stanzas_nobody_answers", "handler_replies_after_refused_writes", "handler_replies_abandoned_in_mid_element", "calls_overlapping_another_actor", "elements_spanning_several_writes", "auto_replies", "wire_stanzas"}
 	for _, e := range []string{"Send", "SendElement", "Encode", "EncodeElement", "TokenWriter", "HandlerReply",
 		"SendIQ", "SendIQElement", "EncodeIQ", "EncodeIQElement", "UnmarshalIQ", "UnmarshalIQElement", "IterIQ", "IterIQElement",
 		"SendMessage", "SendMessageElement", "EncodeMessage", "EncodeMessageElement",
